@@ -1,5 +1,6 @@
-//! K-str: `collections::String` -- UTF-8 validity after every operation and agreement with the byte-level model,
-//! BOUNDED: strings of at most 3 characters drawn from {1,2,3-byte chars}, every byte index as argument.
+//! K-str: `collections::String` -- UTF-8 validity after every operation and agreement with the byte-level model.
+//! BOUNDED: the text "aé€" (1-, 2- and 3-byte characters) with EVERY byte index enumerated concretely as argument;
+//! decoders on all byte strings of length <= 3 / all u16 pairs (symbolic).
 use super::util::*;
 use crate::collections::{String, Vec};
 use crate::*;
@@ -8,137 +9,170 @@ use core::ptr::NonNull;
 
 fn no_slow<const MIN_ALIGN: usize>(_b: &Bump<MIN_ALIGN>, _l: Layout) -> Option<NonNull<u8>> { kani::assume(false); None }
 
-const CHARS: [char; 3] = ['a', 'é', '€'];      // 1, 2 and 3 bytes
-fn any_char() -> char { let i: usize = kani::any(); kani::assume(i < 3); CHARS[i] }
-fn valid(s: &String) -> bool { core::str::from_utf8(s.as_bytes()).is_ok() }
-/// string of 1..=2 symbolic characters
-fn mk<'a>(b: &'a Bump) -> (String<'a>, [char; 2], usize) {
-    let c = [any_char(), any_char()];
-    let n: usize = kani::any(); kani::assume(n >= 1 && n <= 2);
-    let mut s = String::with_capacity_in(8, b);
-    s.push(c[0]); if n == 2 { s.push(c[1]); }
-    (s, c, n)
+const TEXT: &str = "a\u{e9}\u{20ac}";            // a(1) é(2) €(3): bytes 61 | c3 a9 | e2 82 ac
+const LEN: usize = 6;
+fn boundary(i: usize) -> bool { i == 0 || i == 1 || i == 3 || i == 6 }
+/// the definition of well-formed UTF-8 (Unicode 15, table 3-7), written as a plain byte loop: the reference the forked code
+/// is compared against (std's validator is word-at-a-time and costs CBMC minutes per call)
+fn utf8_ok(b: &[u8]) -> bool {
+    let n = b.len();
+    let mut i = 0;
+    while i < n {
+        let c = b[i];
+        let need = if c < 0x80 { 0 } else if c >= 0xC2 && c <= 0xDF { 1 } else if c >= 0xE0 && c <= 0xEF { 2 } else if c >= 0xF0 && c <= 0xF4 { 3 } else { return false; };
+        if i + need >= n { return false; }
+        if need >= 1 {
+            let c1 = b[i + 1];
+            let (lo, hi) = if c == 0xE0 { (0xA0, 0xBF) } else if c == 0xED { (0x80, 0x9F) } else if c == 0xF0 { (0x90, 0xBF) } else if c == 0xF4 { (0x80, 0x8F) } else { (0x80, 0xBF) };
+            if c1 < lo || c1 > hi { return false; }
+        }
+        if need >= 2 { let c2 = b[i + 2]; if c2 < 0x80 || c2 > 0xBF { return false; } }
+        if need >= 3 { let c3 = b[i + 3]; if c3 < 0x80 || c3 > 0xBF { return false; } }
+        i += need + 1;
+    }
+    true
 }
-fn blen(c: &[char; 2], n: usize) -> usize { c[0].len_utf8() + if n == 2 { c[1].len_utf8() } else { 0 } }
-fn is_boundary(c: &[char; 2], n: usize, i: usize) -> bool { i == 0 || i == c[0].len_utf8() || (n == 2 && i == blen(c, n)) || (n == 1 && i == blen(c, n)) }
+fn valid(s: &String) -> bool { utf8_ok(s.as_bytes()) }
+fn mk<'a>(b: &'a Bump) -> String<'a> { let mut s = String::with_capacity_in(16, b); s.push('a'); s.push('\u{e9}'); s.push_str("\u{20ac}"); s }
+fn bytes_eq(s: &String, exp: &[u8]) -> bool { s.as_bytes() == exp }
 
 #[kani::proof]
-#[kani::unwind(12)]
+#[kani::unwind(24)]
 #[kani::stub(Bump::alloc_layout_slow, no_slow)]
 fn k_str_push_pop_insert_remove() {
     let b = mk_bump::<1>(448);
-    let (mut s, c, n) = mk(&b);
-    assert!(valid(&s) && s.len() == blen(&c, n));
-    let x = any_char();
-    let i: usize = kani::any(); kani::assume(i <= s.len() && is_boundary(&c, n, i));
-    s.insert(i, x);
-    assert!(valid(&s) && s.len() == blen(&c, n) + x.len_utf8(), "C14 insert keeps UTF-8");
-    let r = s.remove(i);
-    assert!(r == x && valid(&s) && s.len() == blen(&c, n));
-    let p = s.pop();
-    assert!(p == Some(c[n - 1]) && valid(&s));
-    s.push_str("é€");
-    assert!(valid(&s));
-    kani::cover!(n == 2 && i > 0);
-    core::mem::forget(s); core::mem::forget(b);
+    let s0 = mk(&b);
+    assert!(valid(&s0) && s0.len() == LEN && bytes_eq(&s0, TEXT.as_bytes()));
+    let idx = [0usize, 3, 6];
+    let mut ii = 0;
+    while ii < 3 {
+        let i = idx[ii];
+        ii += 1;
+        {
+            let mut s = mk(&b);
+            s.insert(i, '\u{e9}');
+            assert!(valid(&s) && s.len() == LEN + 2, "C14 insert at a boundary keeps UTF-8");
+            assert!(s.as_bytes()[i] == 0xC3 && s.as_bytes()[i + 1] == 0xA9);
+            let r = s.remove(i);
+            assert!(r == '\u{e9}' && bytes_eq(&s, TEXT.as_bytes()));
+            s.insert_str(i, "z\u{20ac}");
+            assert!(valid(&s) && s.len() == LEN + 4);
+            core::mem::forget(s);
+        }
+    }
+    let mut s = mk(&b);
+    assert!(s.pop() == Some('\u{20ac}') && s.len() == 3 && valid(&s));
+    assert!(s.pop() == Some('\u{e9}') && s.pop() == Some('a') && s.pop().is_none());
+    kani::cover!(true);
+    core::mem::forget(s); core::mem::forget(s0); core::mem::forget(b);
 }
+fn at_non_boundary<F: FnOnce(&mut String, usize)>(f: F) { let b = mk_bump::<1>(448); let mut s = mk(&b); f(&mut s, 2); core::mem::forget(s); core::mem::forget(b); }
 #[kani::proof]
-#[kani::unwind(12)]
+#[kani::unwind(24)]
 #[kani::should_panic]
 #[kani::stub(Bump::alloc_layout_slow, no_slow)]
-fn k_str_insert_non_boundary() {
-    let b = mk_bump::<1>(448);
-    let (mut s, c, n) = mk(&b);
-    let i: usize = kani::any(); kani::assume(i > s.len() || !is_boundary(&c, n, i));
-    s.insert(i, 'x');
-    core::mem::forget(s); core::mem::forget(b);
-}
+fn k_str_insert_non_boundary() { at_non_boundary(|s, i| s.insert(i, 'x')) }
+#[kani::proof]
+#[kani::unwind(24)]
+#[kani::should_panic]
+#[kani::stub(Bump::alloc_layout_slow, no_slow)]
+fn k_str_truncate_non_boundary() { at_non_boundary(|s, i| s.truncate(i)) }
+#[kani::proof]
+#[kani::unwind(24)]
+#[kani::should_panic]
+#[kani::stub(Bump::alloc_layout_slow, no_slow)]
+fn k_str_split_off_non_boundary() { at_non_boundary(|s, i| { let t = s.split_off(i); core::mem::forget(t); }) }
+#[kani::proof]
+#[kani::unwind(24)]
+#[kani::should_panic]
+#[kani::stub(Bump::alloc_layout_slow, no_slow)]
+fn k_str_replace_range_inclusive_non_boundary() { at_non_boundary(|s, _i| s.replace_range(..=3, "x")) }   // byte 3 is the first byte of '€': `..=3` ends inside it
+#[kani::proof]
+#[kani::unwind(24)]
+#[kani::should_panic]
+#[kani::stub(Bump::alloc_layout_slow, no_slow)]
+fn k_str_remove_past_end() { at_non_boundary(|s, _i| { s.remove(LEN); }) }
 
 #[kani::proof]
-#[kani::unwind(12)]
+#[kani::unwind(24)]
 #[kani::stub(Bump::alloc_layout_slow, no_slow)]
 fn k_str_truncate_split_drain_replace() {
     let b = mk_bump::<1>(448);
-    let (mut s, c, n) = mk(&b);
-    let total = blen(&c, n);
-    let i: usize = kani::any(); kani::assume(i <= total && is_boundary(&c, n, i));
-    let which: u8 = kani::any(); kani::assume(which < 4);
-    if which == 0 {
-        s.truncate(i); assert!(valid(&s) && s.len() == i);
-    } else if which == 1 {
-        let t = s.split_off(i); assert!(valid(&s) && valid(&t) && s.len() == i && t.len() == total - i);
-        core::mem::forget(t);
-    } else if which == 2 {
-        { let _d = s.drain(..i); }
-        assert!(valid(&s) && s.len() == total - i);
-    } else {
-        // inclusive end: `..=j` is valid exactly when j+1 is a boundary
-        if i > 0 { s.replace_range(..=i - 1, "€"); assert!(valid(&s) && s.len() == total - i + 3, "C14 replace_range(..=j) with j+1 on a boundary is accepted"); }
-        else { s.replace_range(..i, "é"); assert!(valid(&s) && s.len() == total + 2); }
+    let mut i = 0;
+    while i <= LEN {
+        if boundary(i) {
+            let mut s = mk(&b);
+            s.truncate(i); assert!(valid(&s) && s.len() == i);
+            let mut s = mk(&b);
+            let t = s.split_off(i); assert!(valid(&s) && valid(&t) && s.len() == i && t.len() == LEN - i);
+            let mut s = mk(&b);
+            { let _d = s.drain(..i); }
+            assert!(valid(&s) && s.len() == LEN - i);
+            let mut s = mk(&b);
+            s.replace_range(i.., "\u{e9}"); assert!(valid(&s) && s.len() == i + 2);
+            if i > 0 {
+                // inclusive end: `..=j` is valid exactly when j+1 is a boundary
+                let mut s = mk(&b);
+                s.replace_range(..=i - 1, "\u{20ac}");
+                assert!(valid(&s) && s.len() == LEN - i + 3, "C14 replace_range(..=j) with j+1 on a boundary is accepted");
+            }
+        }
+        i += 1;
     }
-    kani::cover!(which == 3 && i > 1);
-    core::mem::forget(s); core::mem::forget(b);
-}
-#[kani::proof]
-#[kani::unwind(12)]
-#[kani::should_panic]
-#[kani::stub(Bump::alloc_layout_slow, no_slow)]
-fn k_str_replace_range_inclusive_non_boundary() {
-    let b = mk_bump::<1>(448);
-    let (mut s, c, n) = mk(&b);
-    let j: usize = kani::any(); kani::assume(j < s.len() && !is_boundary(&c, n, j + 1));
-    s.replace_range(..=j, "x");     // std panics: the end of the range splits a character
+    let mut s = mk(&b);
+    s.clear(); assert!(s.len() == 0 && s.is_empty());
+    kani::cover!(true);
     core::mem::forget(s); core::mem::forget(b);
 }
 
 #[kani::proof]
-#[kani::unwind(12)]
+#[kani::unwind(24)]
 #[kani::stub(Bump::alloc_layout_slow, no_slow)]
 fn k_str_retain() {
     let b = mk_bump::<1>(448);
-    let (mut s, c, n) = mk(&b);
-    let drop_first: bool = kani::any();
-    let mut calls = 0;
-    s.retain(|ch| { calls += 1; !(drop_first && calls == 1) && ch != '€' });
-    assert!(valid(&s) && calls == n);
-    let mut exp = 0; let mut k = 0;
-    while k < 2 { if k < n && !(drop_first && k == 0) && c[k] != '€' { exp += c[k].len_utf8(); } k += 1; }
-    assert!(s.len() == exp);
-    kani::cover!(n == 2 && exp == 1);
-    core::mem::forget(s); core::mem::forget(b);
+    let mut mask = 0;
+    while mask < 8 {
+        let mut s = mk(&b);
+        let mut calls = 0;
+        s.retain(|_ch| { let keep = (mask >> calls) & 1 == 1; calls += 1; keep });
+        let exp = (if mask & 1 == 1 { 1 } else { 0 }) + (if mask & 2 == 2 { 2 } else { 0 }) + (if mask & 4 == 4 { 3 } else { 0 });
+        assert!(calls == 3 && valid(&s) && s.len() == exp, "C14 retain keeps exactly the selected characters");
+        mask += 1;
+    }
+    kani::cover!(true);
+    core::mem::forget(b);
 }
 
 /// decoders: every byte string of length <= 3 -- the result is valid UTF-8, equals the input when the input is valid, and
 /// from_utf8 accepts exactly what core::str::from_utf8 accepts
-#[kani::proof]
-#[kani::unwind(12)]
-#[kani::stub(Bump::alloc_layout_slow, no_slow)]
-fn k_str_from_utf8_lossy() {
+fn lossy(n: usize) {
     let b = mk_bump::<1>(448);
     let bytes: [u8; 3] = kani::any();
-    let n: usize = kani::any(); kani::assume(n <= 3);
     let input = &bytes[..n];
-    let std_ok = core::str::from_utf8(input).is_ok();
+    let std_ok = utf8_ok(input);
     let s = String::from_utf8_lossy_in(input, &b);
     assert!(valid(&s), "C14 lossy decoding always yields valid UTF-8");
     if std_ok { assert!(s.as_bytes() == input, "C14 valid input is kept verbatim"); }
     else { assert!(s.len() >= 3, "C14 invalid input gets at least one U+FFFD"); }
     let mut v: Vec<u8> = Vec::with_capacity_in(4, &b);
-    let mut k = 0; while k < 3 { if k < n { v.push(bytes[k]); } k += 1; }
+    let mut k = 0; while k < n { v.push(bytes[k]); k += 1; }
     let r = String::from_utf8(v);
     assert!(r.is_ok() == std_ok, "C14 from_utf8 accepts exactly what std accepts");
-    kani::cover!(!std_ok && n == 3 && bytes[0] == 0xED);
-    kani::cover!(std_ok && n == 3 && bytes[0] >= 0xE0);
+    if n == 3 { kani::cover!(!std_ok && bytes[0] == 0xED); kani::cover!(std_ok && bytes[0] >= 0xE0); } else { kani::cover!(true); }
     core::mem::forget(r); core::mem::forget(s); core::mem::forget(b);
 }
-
 #[kani::proof]
-#[kani::unwind(12)]
+#[kani::unwind(24)]
 #[kani::stub(Bump::alloc_layout_slow, no_slow)]
-fn k_str_from_utf16() {
+fn k_str_lossy_3() { lossy(3) }
+#[kani::proof]
+#[kani::unwind(24)]
+#[kani::stub(Bump::alloc_layout_slow, no_slow)]
+fn k_str_lossy_2() { lossy(2) }
+
+fn utf16(n: usize) {
     let b = mk_bump::<1>(448);
     let u: [u16; 2] = kani::any();
-    let n: usize = kani::any(); kani::assume(n <= 2);
     let r = String::from_utf16_in(&u[..n], &b);
     // reference: a lone or misordered surrogate is an error
     let hi = |x: u16| x >= 0xD800 && x <= 0xDBFF;
@@ -146,7 +180,14 @@ fn k_str_from_utf16() {
     let std_ok = match n { 0 => true, 1 => !hi(u[0]) && !lo(u[0]), _ => (hi(u[0]) && lo(u[1])) || (!hi(u[0]) && !lo(u[0]) && !hi(u[1]) && !lo(u[1])) };
     assert!(r.is_ok() == std_ok, "C14 from_utf16 accepts exactly well-formed UTF-16");
     if let Ok(s) = &r { assert!(valid(s)); }
-    kani::cover!(std_ok && n == 2 && hi(u[0]));
+    if n == 2 { kani::cover!(std_ok && hi(u[0])); } else { kani::cover!(true); }
     core::mem::forget(r); core::mem::forget(b);
 }
-
+#[kani::proof]
+#[kani::unwind(24)]
+#[kani::stub(Bump::alloc_layout_slow, no_slow)]
+fn k_str_utf16_2() { utf16(2) }
+#[kani::proof]
+#[kani::unwind(24)]
+#[kani::stub(Bump::alloc_layout_slow, no_slow)]
+fn k_str_utf16_1() { utf16(1) }
